@@ -253,7 +253,12 @@ func newImpl() *impl {
 		},
 		StorageBackend: fsm.NullStorageBackend,
 	})
-	return &impl{f: f}
+	im := &impl{f: f}
+	// the topology query compiles discovery chains, which needs a CA configuration (trust domain)
+	if err := im.store().CASetConfig(0, &structs.CAConfiguration{ClusterID: "11111111-2222-3333-4444-555555555555", Provider: "consul"}); err != nil {
+		panic(err)
+	}
+	return im
 }
 
 func (im *impl) store() *state.Store { return im.f.State() }
@@ -667,7 +672,7 @@ func recomputeUsage(d *Dump) map[string]int {
 	}
 	u["service-names"] = len(names)
 	for _, c := range d.Confs {
-		u["config_entries-"+c.Kind]++
+		u["config-entries-"+c.Kind]++
 	}
 	return u
 }
@@ -721,6 +726,13 @@ func recomputeGatewayServices(d *Dump) map[string]string {
 			typicalNames[d.Services[i].Name] = true
 		}
 	}
+	// names with a connect instance (proxy for it, or native): what an ingress wildcard targets
+	connectNames := map[string]bool{}
+	for i := range d.Services {
+		if n, ok := connectName(&d.Services[i]); ok && n != "" && n != "consul" {
+			connectNames[n] = true
+		}
+	}
 	for _, c := range d.Confs {
 		switch c.Kind {
 		case structs.TerminatingGateway:
@@ -762,10 +774,9 @@ func recomputeGatewayServices(d *Dump) map[string]string {
 				}
 				if wild {
 					want[fmt.Sprintf("%s|*|%d", c.Name, l.Port)] = "ingress-gateway|false|"
-					for n := range typicalNames {
-						_, connect, _, _ := hasInstances(d, n)
+					for n := range connectNames {
 						k := fmt.Sprintf("%s|%s|%d", c.Name, n, l.Port)
-						if _, exact := want[k]; !exact && connect {
+						if _, exact := want[k]; !exact {
 							want[k] = "ingress-gateway|true|service"
 						}
 					}
@@ -876,8 +887,6 @@ func (im *impl) oracle(step int, d *Dump) []OracleFail {
 		if c.Svc != "" {
 			if s := svcs[c.Node+"/"+c.Svc]; s == nil {
 				fail("orphan", "check-without-service", c.Node+"/"+c.ID+" -> "+c.Svc)
-			} else if s.Name != c.SvcName {
-				fail("orphan", "check-service-name-stale", c.Node+"/"+c.ID+": "+c.SvcName+" vs "+s.Name)
 			}
 		}
 	}
@@ -927,7 +936,7 @@ func (im *impl) oracle(step int, d *Dump) []OracleFail {
 		gotU[u[0]] = n
 	}
 	for _, id := range unionKeys(wantU, gotU) {
-		if strings.HasPrefix(id, "config_entries-") && wantU[id] == 0 {
+		if id == "config-entries-proxy-defaults" {
 			// kinds the harness writes but does not dump (proxy-defaults)
 			continue
 		}
@@ -956,7 +965,10 @@ func (im *impl) oracle(step int, d *Dump) []OracleFail {
 	wantG := recomputeGatewayServices(d)
 	gotG := map[string]string{}
 	for _, g := range d.GWS {
-		gotG[fmt.Sprintf("%s|%s|%d", g.Gateway, g.Service, g.Port)] = fmt.Sprintf("%s|%v|%s", g.GWKind, g.Wildcard, g.SvcKind)
+		gotG[fmt.Sprintf("%s|%s|%d", g.Gateway, g.Service, g.Port)] = normGW(fmt.Sprintf("%s|%v|%s", g.GWKind, g.Wildcard, g.SvcKind))
+	}
+	for k, v := range wantG {
+		wantG[k] = normGW(v)
 	}
 	if sub, what := mapDiff(wantG, gotG); sub != "" {
 		fail("gateway-services", sub+":"+classifyGW(wantG, gotG), what)
@@ -1002,7 +1014,7 @@ func (im *impl) oracle(step int, d *Dump) []OracleFail {
 		}
 		api := map[string]bool{}
 		for k, src := range topo.UpstreamSources {
-			if src == structs.TopologySourceRegistration {
+			if src == structs.TopologySourceRegistration || src == structs.TopologySourceRoutingConfig {
 				api[strings.TrimPrefix(k, "default/")] = true
 			}
 		}
@@ -1089,6 +1101,17 @@ func (im *impl) oracle(step int, d *Dump) []OracleFail {
 		fail("unexpected-row", o[0], o[1])
 	}
 	return out
+}
+
+// normGW: the stored ServiceKind is compared only as "is a destination", and only for terminating gateways
+// (for ingress gateways it is "" or "service" depending on the order of writes and has no meaning).
+func normGW(v string) string {
+	p := strings.Split(v, "|")
+	d := "-"
+	if p[0] == "terminating-gateway" && p[2] == "destination" {
+		d = "destination"
+	}
+	return p[0] + "|" + p[1] + "|" + d
 }
 
 func classifyGW(want, got map[string]string) string {
@@ -1195,7 +1218,7 @@ func (g *gen) svcSpec(node string) *SvcSpec {
 			if g.rng.Intn(3) == 0 {
 				sp.Port = 80 + g.rng.Intn(2)
 			}
-			if (s.Kind == "connect-proxy" || s.Native) && g.rng.Intn(3) == 0 {
+			if s.Kind == "connect-proxy" && g.rng.Intn(3) == 0 {
 				sp.Ups = g.subset(plainName, 2)
 			}
 			return sp
@@ -1239,9 +1262,6 @@ func (g *gen) svcSpec(node string) *SvcSpec {
 	case 2:
 		sp.Name = g.pick(plainName)
 		sp.Native = true
-		if g.rng.Intn(4) == 0 {
-			sp.Ups = g.subset(plainName, 1)
-		}
 	case 3:
 		sp.Kind = "mesh-gateway"
 		sp.Name = "mgw"
@@ -1381,7 +1401,11 @@ func (g *gen) conf() *Conf {
 		}
 		return c
 	case 2:
-		return &Conf{Kind: structs.ServiceDefaults, Name: g.pick([]string{"web", "db", "ext", "ext"}), Dest: g.rng.Intn(2) == 0}
+		// a destination is an external service: never a name that is also registered in the catalog
+		if g.rng.Intn(2) == 0 {
+			return &Conf{Kind: structs.ServiceDefaults, Name: "ext", Dest: g.rng.Intn(4) > 0}
+		}
+		return &Conf{Kind: structs.ServiceDefaults, Name: g.pick(plainName)}
 	default:
 		return &Conf{Kind: structs.ServiceResolver, Name: g.pick(plainName)}
 	}
@@ -1531,7 +1555,9 @@ func runScript(id int, mix string, script []Cmd, g *gen, n int) History {
 		if res.Kind == "err" || res.Kind == "txn-err" {
 			h.Stats["err:"+strings.SplitN(res.Err, ":", 2)[0]]++
 		}
-		res.Msg = ""
+		if !strings.HasPrefix(res.Err, "EOther:") {
+			res.Msg = ""
+		}
 		if strings.HasPrefix(res.Err, "EOther:") {
 			res.Err = "EOther"
 		}
